@@ -43,6 +43,7 @@ type Msg struct {
 	To   int
 	At   time.Time // delivery instant (timed mode)
 	Seq  int
+	Dup  bool
 }
 
 // Violation is what a monitor reports.
@@ -101,6 +102,7 @@ type World struct {
 	Actions []string       // rendered actions (when KeepLog)
 	Stats   map[string]int // class counters
 	FaultBudget int
+	TimedRes    *Timed
 	detRand *detReader
 }
 
@@ -222,7 +224,7 @@ func (w *World) send(p Payload, from, to int) {
 	if w.Timed {
 		lat := time.Duration(0)
 		if w.MaxLat > 0 {
-			lat = time.Duration(w.R.Intn("lat", 21)) * w.MaxLat / 20
+			lat = time.Duration(Scramble(w.R.Intn("lat", 21), 21)) * w.MaxLat / 20
 		}
 		msg.At = w.Clock.Add(lat)
 	}
